@@ -1302,6 +1302,14 @@ class Interp:
                 return self.ghost_vals[name]
             if self.spec and fn.id == "final":
                 name = node.args[0].value
+                if isinstance(self.final_env, _FreshFinals) and \
+                        len(node.args) > 1 and \
+                        not dict.__contains__(self.final_env, name):
+                    # a callee's local at a call site: an unknown value of
+                    # the declared type
+                    self.final_env[name] = self.fresh(
+                        node.args[1].value,
+                        f"{self.final_env.tag}.{name}@{self.cur_line}")
                 if self.final_env is None or name not in self.final_env:
                     if len(node.args) > 1:
                         # not bound on this path: an arbitrary value of the
